@@ -36,7 +36,8 @@ SHAPES = {1: (3,), 2: (2, 3), 3: (2, 1, 2)}
 
 def bounds(tier):
     return {"tree_depth": 2 if tier == "quick" else 3, "operators": [n for n, _ in BIN + UN], "operand_kinds": KINDS,
-            "bc_setups": ["noflux", "robin", "periodic+dirichlet"]}
+            "bc_setups": ["noflux", "robin", "periodic+dirichlet"], "operand_states": ["fresh", "applied", "solved", "special values"],
+            "comparison": "bitwise incl. sign of zero (either of two reference evaluations)"}
 
 
 def cases(tier):
